@@ -1,5 +1,6 @@
 import RSocketModel.Props.C14
 import RSocketModel.Gen.LeaseFn
+import RSocketModel.Gen.LeaseDrainFn
 /-!
 # C14 — the lease test is the source's `DefinedLease._is_request_allowed`
 
@@ -37,5 +38,51 @@ theorem c14_source_live_allows_iff (created ttl now counter max : Nat) (h : now 
   by_cases h2 : counter + 1 > max
   · simp [h2]; omega
   · simp [h2]; omega
+
+/-- **`drain` is the source's loop in `handle_lease`**: for every lease just installed, every instant,
+every queue of waiting requests and everything sent before, running the compiled `while` loop (with
+enough fuel for the whole queue) ends with the same request counter, the same requests still waiting
+and the same requests sent, in the same order, as the model's `drain`. -/
+theorem c14_drain_matches_source (now : Nat) (q : List Nat) :
+    ∀ (l : LeaseSt) (sent : List (Nat × Nat)) (fuel : Nat), q.length < fuel →
+      Gen.handle_lease_drain l.created l.ttl now l.max fuel l.used q (sent.map (·.1)) =
+        ((drain l now q sent).1.used, (drain l now q sent).2.1, (drain l now q sent).2.2.map (·.1)) := by
+  induction q with
+  | nil =>
+    intro l sent fuel hf
+    cases fuel with
+    | zero => simp at hf
+    | succ f => simp [Gen.handle_lease_drain, drain]
+  | cons x rest ih =>
+    intro l sent fuel hf
+    cases fuel with
+    | zero => simp at hf
+    | succ f =>
+      have hsrc := c14_allow_matches_source l now
+      have hcr : (allow l now).2.created = l.created ∧ (allow l now).2.ttl = l.ttl ∧ (allow l now).2.max = l.max := by
+        unfold allow; split <;> simp
+      simp only [Gen.handle_lease_drain, List.isEmpty_cons, Bool.not_false, if_true, hsrc]
+      cases hok : (allow l now).1 with
+      | true =>
+        have hdr : drain l now (x :: rest) sent = drain (allow l now).2 now rest (sent ++ [(x, now)]) := by
+          rw [drain]
+          rcases hal : allow l now with ⟨ok, l'⟩
+          rw [hal] at hok
+          simp only at hok
+          subst hok
+          rfl
+        have := ih (allow l now).2 (sent ++ [(x, now)]) f (by simp at hf; omega)
+        rw [hcr.1, hcr.2.1, hcr.2.2] at this
+        simp only [if_true, hdr]
+        simpa using this
+      | false =>
+        have hdr : drain l now (x :: rest) sent = ((allow l now).2, x :: rest, sent) := by
+          rw [drain]
+          rcases hal : allow l now with ⟨ok, l'⟩
+          rw [hal] at hok
+          simp only at hok
+          subst hok
+          rfl
+        simp [hdr]
 
 end RSocketModel.Lease
